@@ -926,18 +926,22 @@ Proof.
     unfold set_inode. cbn [pinodes]. apply list_set_same. exact Hp.
 Qed.
 
-(* the handle and its file, on both sides *)
+(* the handle and its file, on both sides — or a closed handle on a directory *)
 Lemma handle_file s t i h : Rsim s t -> nth_error (mhandles s) i = Some h -> file_handle_ok s i = true ->
-  exists x nd d pm, nth_error (phandles t) i = Some x /\ hrel2 h x /\ get_node s (href h) = Some nd /\
-                    pinode t (pino x) = Some (IFile d pm) /\ irel nd (IFile d pm) /\ ndata nd = d.
+  (exists x nd d pm, nth_error (phandles t) i = Some x /\ hrel2 h x /\ get_node s (href h) = Some nd /\
+                     pinode t (pino x) = Some (IFile d pm) /\ irel nd (IFile d pm) /\ ndata nd = d) \/
+  (exists x nd pm, nth_error (phandles t) i = Some x /\ hrel2 h x /\ get_node s (href h) = Some nd /\
+                   pinode t (pino x) = Some (IDir pm) /\ hclosed h = true /\ pclosed x = true).
 Proof.
   intros R Hh Hok. unfold file_handle_ok in Hok. rewrite Hh in Hok.
-  destruct (get_node s (href h)) as [nd|] eqn:Hn; [|discriminate]. apply negb_true_iff in Hok.
+  destruct (get_node s (href h)) as [nd|] eqn:Hn; [|discriminate].
   destruct (F2_nth _ _ _ i h (rs_handles _ _ R) Hh) as (x & Hx & Hr).
-  destruct (proj2 (rs_heap _ _ R) _ nd Hn) as (y & Hy & Hi). destruct Hr as (Ehr & Hr).
-  destruct y as [pm|d pm]; cbn in Hi; [destruct Hi; congruence|].
-  exists x, nd, d, pm. split; [exact Hx|]. split; [split; [exact Ehr | exact Hr]|]. split; [reflexivity|].
-  split; [now rewrite <- Ehr|]. split; [exact Hi | apply Hi].
+  destruct (proj2 (rs_heap _ _ R) _ nd Hn) as (y & Hy & Hi). pose proof Hr as (Ehr & _ & _ & Ecl & _).
+  destruct y as [pm|d pm]; cbn in Hi.
+  - right. destruct Hi as [Hd _]. rewrite Hd in Hok. cbn in Hok. exists x, nd, pm.
+    split; [exact Hx|]. split; [exact Hr|]. split; [reflexivity|]. split; [now rewrite <- Ehr|]. split; [exact Hok | congruence].
+  - left. exists x, nd, d, pm. split; [exact Hx|]. split; [exact Hr|]. split; [reflexivity|].
+    split; [now rewrite <- Ehr|]. split; [exact Hi | apply Hi].
 Qed.
 
 Ltac hop_start R Hwf Hw Hok h Hh :=
@@ -950,7 +954,8 @@ Ltac hop_start R Hwf Hw Hok h Hh :=
 Lemma sim_hread s t i n : Rsim s t -> wf_op_simx s (HRead i n) = true -> sim_raw s t (HRead i n).
 Proof.
   intros R Hwf. hop_start R Hwf Hw Hok h Hh. apply Z.leb_le in Hw.
-  destruct (handle_file s t i h R Hh Hok) as (x & nd & d & pm & Hx & Hr & Hn & Hp & Hi & Hd).
+  destruct (handle_file s t i h R Hh Hok) as [(x & nd & d & pm & Hx & Hr & Hn & Hp & Hi & Hd)|(x & nd & pm & Hx & Hr & Hn & Hp & Hcl & Hpcl)].
+  2:{ rewrite Hx, Hn, Hp, Hpcl. unfold f_read. rewrite Hcl. cbn. split; [eapply Rsim_set_handle_same; eauto | reflexivity]. }
   rewrite Hx, Hn, Hp, Hd.
   pose proof (sim_read d h (bh_of x) n i (hrel_of h x Hr) Hw) as [Hnp Hsim].
   destruct (f_read_io d h n) as [Hio|Hio]; [contradiction|].
@@ -967,7 +972,8 @@ Qed.
 Lemma sim_hreadat s t i n off : Rsim s t -> wf_op_simx s (HReadAt i n off) = true -> sim_raw s t (HReadAt i n off).
 Proof.
   intros R Hwf. hop_start R Hwf Hw Hok h Hh. apply Z.leb_le in Hw.
-  destruct (handle_file s t i h R Hh Hok) as (x & nd & d & pm & Hx & Hr & Hn & Hp & Hi & Hd).
+  destruct (handle_file s t i h R Hh Hok) as [(x & nd & d & pm & Hx & Hr & Hn & Hp & Hi & Hd)|(x & nd & pm & Hx & Hr & Hn & Hp & Hcl & Hpcl)].
+  2:{ rewrite Hx, Hn, Hp, Hpcl. unfold f_readat, f_read. cbn [hclosed set_at]. rewrite Hcl. destruct (off <? 0); cbn; (split; [|reflexivity]); try (eapply Rsim_set_handle_same; eauto). }
   rewrite Hx, Hn, Hp, Hd.
   pose proof (sim_readat d h (bh_of x) n off i (hrel_of h x Hr) Hw) as (Hnp & Hfst & Hpr).
   destruct (f_readat_io d h n off) as [Hio|Hio]; [contradiction|].
@@ -986,7 +992,8 @@ Proof.
   intros Em Epr Emp Ep R Hok. unfold sim_raw. rewrite Em, Ep. cbn [p_step]. unfold m_hop.
   destruct (nth_error (mhandles s) i) as [h|] eqn:Hh;
     [|rewrite (F2_nth_none _ _ _ i (rs_handles _ _ R) Hh); split; [exact R | rewrite Emp; reflexivity]].
-  destruct (handle_file s t i h R Hh Hok) as (x & nd & d & pm & Hx & Hr & Hn & Hp & Hi & Hd).
+  destruct (handle_file s t i h R Hh Hok) as [(x & nd & d & pm & Hx & Hr & Hn & Hp & Hi & Hd)|(x & nd & pm & Hx & Hr & Hn & Hp & Hcl & Hpcl)].
+  2:{ rewrite Hx, Hn, Hp, Hpcl. unfold f_write. rewrite Hcl. cbn. split; [eapply Rsim_set_handle_same; eauto | reflexivity]. }
   rewrite Hx, Hn, Hp, Hd.
   assert (Hat : 0 <= hat h) by (destruct Hr as (_ & E & _); lia).
   pose proof (sim_write d h (bh_of x) b (HWrite i b) (hrel_of h x Hr) Hat) as Hsim. cbv zeta in Hsim.
@@ -1016,7 +1023,8 @@ Qed.
 Lemma sim_hwriteat s t i b off : Rsim s t -> wf_op_simx s (HWriteAt i b off) = true -> sim_raw s t (HWriteAt i b off).
 Proof.
   intros R Hwf. hop_start R Hwf Hw Hok h Hh.
-  destruct (handle_file s t i h R Hh Hok) as (x & nd & d & pm & Hx & Hr & Hn & Hp & Hi & Hd).
+  destruct (handle_file s t i h R Hh Hok) as [(x & nd & d & pm & Hx & Hr & Hn & Hp & Hi & Hd)|(x & nd & pm & Hx & Hr & Hn & Hp & Hcl & Hpcl)].
+  2:{ rewrite Hx, Hn, Hp, Hpcl. unfold f_writeat, f_write. cbn [hclosed set_at]. rewrite Hcl. destruct (off <? 0); cbn; (split; [|reflexivity]); try (eapply Rsim_set_handle_same; eauto). }
   rewrite Hx, Hn, Hp, Hd.
   pose proof (sim_writeat d h (bh_of x) b off (HWriteAt i b off) (hrel_of h x Hr)) as Hsim. cbv zeta in Hsim.
   destruct (f_writeat_io d h b off) as [Hio|Hio]; [destruct Hsim; contradiction|].
@@ -1033,7 +1041,8 @@ Qed.
 Lemma sim_hseek s t i off wh : Rsim s t -> wf_op_simx s (HSeek i off wh) = true -> sim_raw s t (HSeek i off wh).
 Proof.
   intros R Hwf. hop_start R Hwf Hw Hok h Hh.
-  destruct (handle_file s t i h R Hh Hok) as (x & nd & d & pm & Hx & Hr & Hn & Hp & Hi & Hd).
+  destruct (handle_file s t i h R Hh Hok) as [(x & nd & d & pm & Hx & Hr & Hn & Hp & Hi & Hd)|(x & nd & pm & Hx & Hr & Hn & Hp & Hcl & Hpcl)].
+  2:{ rewrite Hx, Hn, Hp, Hpcl. unfold f_seek. rewrite Hcl. cbn. split; [eapply Rsim_set_handle_same; eauto | reflexivity]. }
   rewrite Hx, Hn, Hp, Hd.
   pose proof (sim_seek d h (bh_of x) off wh (HSeek i off wh) (hrel_of h x Hr)) as Hsim. cbv zeta in Hsim.
   pose proof (f_seek_io d h off wh) as Hio. pose proof (f_seek_href d h off wh) as [Eh Er].
@@ -1051,7 +1060,8 @@ Qed.
 Lemma sim_htruncate s t i n : Rsim s t -> wf_op_simx s (HTruncate i n) = true -> sim_raw s t (HTruncate i n).
 Proof.
   intros R Hwf. hop_start R Hwf Hw Hok h Hh.
-  destruct (handle_file s t i h R Hh Hok) as (x & nd & d & pm & Hx & Hr & Hn & Hp & Hi & Hd).
+  destruct (handle_file s t i h R Hh Hok) as [(x & nd & d & pm & Hx & Hr & Hn & Hp & Hi & Hd)|(x & nd & pm & Hx & Hr & Hn & Hp & Hcl & Hpcl)].
+  2:{ rewrite Hx, Hn, Hp, Hpcl. unfold f_truncate. rewrite Hcl. cbn. split; [exact R | reflexivity]. }
   rewrite Hx, Hn, Hp, Hd.
   pose proof (sim_truncate d h (bh_of x) n (HTruncate i n) (hrel_of h x Hr)) as Hsim. cbv zeta in Hsim.
   pose proof (f_truncate_io d h n) as Hio.
